@@ -194,6 +194,25 @@ pub fn to_baa(v: &Val) -> baa::Value {
     }
 }
 
+/// like `to_baa`, arrays in the dense representation
+pub fn to_baa_dense(v: &Val) -> baa::Value {
+    match to_baa(v) {
+        baa::Value::Array(a) => {
+            // baa 0.19.3's sparse -> dense conversion asserts for data widths above 64 bit; that is the
+            // harness's own use of the dependency, not a patronus code path: fall back to sparse there
+            let mut d = a.clone();
+            match crate::panics::guarded(move || {
+                d.make_dense();
+                d
+            }) {
+                Ok(d) => baa::Value::Array(d),
+                Err(_) => baa::Value::Array(a),
+            }
+        }
+        other => other,
+    }
+}
+
 /// Run the real evaluator (patronus::expr::eval_expr) under a model. Returns a printable result;
 /// panics (e.g. the documented `todo!` for division) are caught.
 pub fn real_eval(ctx: &Context, model: &Model, e: ExprRef) -> String {
